@@ -15,7 +15,7 @@ CONFIG = {
         "the schema environment is the one the real j5schema reflector derives (ClientProperties, dumped per run); flattening / oneof exposure logic is an input of the model, not part of it",
     ],
     "assumptions": [
-        "j5 Any values: the decoder stores json.Compact of the raw value text; the model works on tokens and stores the tokens re-printed without whitespace and with minimal string escapes, and the correspondence re-prints the implementation's stored bytes the same way before comparing — the payload is tied member by member and in order, but not in the spelling of string escapes (\\u00fc vs the raw character)",
+        "j5 Any values: the decoder stores json.Compact of the raw value text; the model works on tokens and stores the tokens re-printed without whitespace and with minimal string escapes, and the correspondence re-prints the implementation's stored bytes the same way before comparing — the payload is tied member by member and in order, but not in the spelling of string escapes (\\u00fc vs the raw character); the direct oracle of C03 (any-payload stream) compares the stored j5_json byte for byte with json.Compact of the member's text (member order, repeated names, escapes, number spellings)",
         "model/CodecDec.v + CodecDecScalar.v + CodecDecQuery.v are the hand-written model of internal/codec/decoder.go, query.go and the parts of lib/j5reflect they drive; tied to the code by the regenerated switch tables and by the correspondence streams of this run",
         "url.Values is a Go map: the query model takes the (key, values) pairs in visiting order, the theorem holds for every order; the correspondence accepts an observation that the model produces for some order of the keys (exact for single-key queries); strcase.ToLowerCamel and strings.TrimSpace are modelled in lib/Strcase.v",
         "codec options: the default codec (lib/j5codec.NewCodec()); WithProtoToAny (nested decode + proto.Marshal inside decodeAny) is not modelled",
